@@ -158,6 +158,9 @@ def run(rep: core.Report):
     from rules import shared_sorted
 
     shared_sorted.run(rep, "R10j", ["phonopy/phonon/thermal_properties.py"])
+    from rules import shared_bandaxis
+
+    shared_bandaxis.run(rep, "R10k", [("phonopy/phonon/thermal_properties.py", "ThermalPropertiesBase._calculate_thermal_property", {"func": 1})])
 
 
 # ---------------------------------------------------------------------------
